@@ -54,5 +54,18 @@ def main(argv=None) -> int:
     return report.finish(chk, a.tier, seed, results, obls, time.time() - t0, write=not a.only, extra=extra)
 
 
+def _main_with_scratch() -> int:
+    """every scratch directory of the run (pool workers included - they leave through os._exit, so their atexit hooks never run)
+    lives under ONE parent that this process removes when it ends"""
+    import shutil
+    import tempfile
+    parent = tempfile.mkdtemp(prefix="bpverif-")
+    os.environ["VF_SCRATCH_PARENT"] = parent
+    try:
+        return main()
+    finally:
+        shutil.rmtree(parent, ignore_errors=True)
+
+
 if __name__ == "__main__":
-    sys.exit(main())
+    sys.exit(_main_with_scratch())
